@@ -166,6 +166,14 @@ def check_noise(run, cx, cfg):
         pat = ('op', 'Sub', '?one', ('op', 'Div', ('cast', 'IntToFloat', ('op', 'BitAnd', '?h', '?mask'), 'f64'), '?div'))
         m = match(pat, r)
         if m is None:
+            # the masked value narrowed to an unsigned type that holds every masked value before it becomes a float
+            # (`f64::from((h & 0x7fff_ffff) as u32)`): the same number
+            pat2 = ('op', 'Sub', '?one', ('op', 'Div', ('cast', 'IntToFloat', ('cast', 'IntToInt', ('op', 'BitAnd', '?h', '?mask'), '?ty'), 'f64'), '?div'))
+            m2 = match(pat2, r)
+            if m2 is not None and m2['?mask'][0] == 'int' and m2['?ty'] in ('u8', 'u16', 'u32', 'u64', 'u128', 'usize') \
+                    and 0 <= m2['?mask'][1] < (1 << {'u8': 8, 'u16': 16, 'u32': 32, 'u64': 64, 'u128': 128, 'usize': 64}[m2['?ty']]):
+                m = m2
+        if m is None:
             bad = 'must be 1.0 - (hash & mask) as f64 / divisor (is %s)' % short(r)[:200]
         else:
             one, mask, div = m['?one'], m['?mask'], m['?div']
